@@ -69,7 +69,7 @@ def bounds(tier):
             "noncanon": {"one_column_total": 3, "two_columns_total": 2},
             "three": {"ACGT": 2, "ACGTN-": 2, "ACN": 3}, "protein_total": 4,
             "nj_tips_len128": 6, "nj_tips_len18": 7, "nj_forms_tips": 5,
-            "upgma": {"2": 5, "3": 5, "4": 5, "5": 5, "6": 5, "7": 3},
+            "upgma": {"2": 5, "3": 5, "4": 5, "5": 5, "6": 5, "7": 4},
         },
     }[tier]
 
@@ -173,6 +173,7 @@ def check_seqs(seqs, moltype, array_align, ests, entries, acc, part):
     case = {"part": part, "seqs": list(seqs), "moltype": moltype, "array_align": array_align}
     aln = make_aln(seqs, names, moltype, array_align)
     for est in ests:
+        at_calculator = set()  # (pair, kind) that already diverged in the calculator class itself
         for entry in entries:
             if entry != "calculator" and est == "logdet_classic":
                 continue  # use_tk_adjustment is only reachable through the calculator class
@@ -223,9 +224,16 @@ def check_seqs(seqs, moltype, array_align, ests, entries, acc, part):
                 elif g1 == D.UNDEF:
                     sig = f"{est} via {entry}: no value where the closed form is defined"
                 elif D.UNDEF in want and len(want) == 1:
-                    sig = f"{est} via {entry}: finite value where the closed form is undefined"
+                    fam = "paralinear/logdet" if est in ("paralinear", "logdet", "logdet_classic") else est
+                    sig = (f"{fam} via {entry}: finite value where the closed form is undefined "
+                           f"[{D.why_undefined(est, m, letters)}]")
                 else:
                     sig = f"{est} via {entry}: value differs from the closed form"
+                kind = sig.split(": ", 1)[1]
+                if entry == "calculator":
+                    at_calculator.add(((i, j), kind))
+                elif ((i, j), kind) in at_calculator:
+                    continue  # same divergence, first seen at the calculator: one defect, one signature
                 acc.fail(sig, dict(case, est=est, entry=entry),
                          {"pair": [seqs[i], seqs[j]], "count_matrix": list(m), "got": g1, "allowed": want})
             if got is not None:
@@ -541,7 +549,9 @@ def replay(case):
         upgma_case(case["n"], _tuplify(case["tree"]), _tuplify(case["heights"]), (case["form"],), acc)
     else:
         ests = (case["est"],) if "est" in case else NUC_ESTS
-        entries = (case["entry"],) if "entry" in case else ENTRIES_MAIN
+        entries = ENTRIES_MAIN
+        if "entry" in case:  # the calculator is always observed first (wrapper failures are attributed to it)
+            entries = ("calculator",) + ((case["entry"],) if case["entry"] != "calculator" else ())
         check_seqs(tuple(case["seqs"]), case["moltype"], case["array_align"], ests, entries, acc, part)
     return [(sig, rec["cases"][0]["detail"]) for sig, rec in acc.failures.items()]
 
